@@ -176,4 +176,28 @@ rewrite nth_take // -map_comp (nth_map ([::], [::])) ?(perm_size pe) ?(leq_trans
 rewrite (nth_map ([::], [::])) ?(perm_size pe) ?(leq_trans (ltn_ord i)) //=.
 by rewrite mxE.
 Qed.
+
+(* transfer, as an example of use: the consistency theorem of the algebraic model holds for the
+   executable model's update (read through the abstraction) *)
+Corollary exec_update_consistent (eighL : seq (seq R) -> seq R * seq (seq R))
+        (eighA : 'M[R]_n -> 'rV[R]_n * 'M[R]_n)
+        (P : @E.params R) (st : @E.state R) (pop : seq (seq R * seq R)) :
+  (forall C, mshape n n C ->
+     [/\ size (eighL C).1 = n, mshape n n (eighL C).2
+       & eighA (mxL n n C) = (rvL n (eighL C).1, mxL n n (eighL C).2)]) ->
+  wfP n mu P -> wfS n st ->
+  (mu <= size pop)%N -> all (fun p => size p.2 == n) pop ->
+  (forall x, 0 < exp x) -> AP.rates_ok (absP mu P) ->
+  A.p_ccov1 (absP mu P) + A.p_ccovmu (absP mu P) <= 1 ->
+  AP.psd (A.s_C (absS n st)) -> AP.consistent (absS n st) ->
+  (forall C : 'M[R]_n, C^T = C -> AP.psd C -> AP.eigh_ok eighA C) ->
+  let st' := E.update RN eighL P st pop in
+  AP.consistent (absS n st') /\ AP.psd (A.s_C (absS n st')).
+Proof.
+move=> er wP wS len rows ex rk le1 psC cst eo st'.
+have [_ ->] := exec_update_refines_alg er wP wS len rows.
+rewrite /A.update; apply: AP.update_consistent => //.
+apply: eo; last exact: AP.C_psd_preserved.
+by apply: AP.C_symmetric_preserved; case: cst.
+Qed.
 End SortLink.
